@@ -79,13 +79,18 @@ BuildTik(s) ==
       grid == GridOf(idx, n, Draw(R, 6, 0, 3), Draw(R, 7, 1, 3))
   IN TikRecord("tik", s, A, b, rn, rd, idx, grid)
 
-ConRecord(tag, s, A, b, C) ==
+\* exponents of the row scaling D = diag(2^k) replayed into the real routine (powers of two: D C is exact in
+\* floating point; 2^70 itself is far outside TLC's integers, so TLC checks the relation with small integer
+\* multipliers (ConRowScale) and only SUPPLIES the exponents; the harness compares x(A, b, D C) with the same
+\* rational as x(A, b, C) and evaluates C x = 0 against the UNSCALED C)
+KExps == <<0, 20, -20, 40, -40, 70, -70>>
+ConRecord(tag, s, A, b, C, kexp) ==
   LET sol == CASE Variant = "noC" -> [num |-> Solve(Gram(A), MatVec(Tr(A), b)).num, lam |-> ZeroV(Rows(C)),
                                       den |-> Det(Gram(A))]                                    \* constraint ignored
                [] Variant = "zero" -> [num |-> ZeroV(Cols(A)), lam |-> ZeroV(Rows(C)), den |-> 1]        \* feasible, not optimal
                [] OTHER           -> ConSolve(A, b, C)
   IN [k |-> tag, s |-> s, m |-> Rows(A), n |-> Cols(A), p |-> Rows(C), A |-> A, b |-> b, C |-> C,
-      num |-> sol.num, lam |-> sol.lam, den |-> sol.den, zerocol |-> HasZeroColumn(A)]
+      num |-> sol.num, lam |-> sol.lam, den |-> sol.den, zerocol |-> HasZeroColumn(A), kexp |-> kexp]
 
 BuildCon(s) ==
   LET R == Stream(s)
@@ -95,7 +100,8 @@ BuildCon(s) ==
       A == Matrix(R, 10, m, n, -2, 2)
       b == Vector(R, 30, m, -3, 3)
       C == Matrix(R, 40, p, n, -2, 2)
-  IN ConRecord("con", s, A, b, C)
+      kexp == [i \in 1..p |-> KExps[Draw(R, 50 + i, 1, 7)]]
+  IN ConRecord("con", s, A, b, C, kexp)
 
 Mat2(a) == <<<<a[1], a[2]>>, <<a[3], a[4]>>>>
 
@@ -115,7 +121,8 @@ Build(q) == CASE q.k = "tik" -> BuildTik(q.s)
               [] q.k = "con" -> BuildCon(q.s)
               [] q.k = "xt"  -> LET idx == ContiguousIdx(2, [i \in 1..2 |-> ((q.A[1][2] + q.r) % 2) = 0], (q.A[1][1] % 2) = 0)
                                 IN TikRecord("xt", 0, q.A, q.b, q.r, 1, idx, GridOf(idx, 2, 0, 1))
-              [] q.k = "xc"  -> ConRecord("xc", 0, q.A, q.b, q.C)
+              [] q.k = "xc"  -> ConRecord("xc", 0, q.A, q.b, q.C,
+                                           <<KExps[1 + ((q.A[1][1] + 2 * q.A[2][2] + 3 * q.C[1][1] + 14) % 7)]>>)
 
 Next == ph = 0 /\ ph' = 1 /\ sys' = Build(sys)
 Spec == Init /\ [][Next]_vars
@@ -156,6 +163,10 @@ ConGradNull   == WellPosedCon => GradOrthNullLattice(sys.C, Grad, 2)
 ConMultiplier == WellPosedCon => Grad = NegV(MatVec(Tr(sys.C), sys.lam))
 ConSmall      == WellPosedCon /\ MaxAbsV(sys.num) <= 400 /\ AbsI(sys.den) <= 400
 ConMin        == ConSmall => ConMinimiser(sys.A, sys.b, sys.C, Sol)
+\* row scaling does not change the constrained minimiser (small integer multipliers, one negative)
+Multipliers(p) == IF p = 1 THEN {<<2>>, <<-3>>} ELSE {<<2, 1>>, <<1, -3>>, <<2, -3>>}
+ConRowScale   == ConSmall => \A d \in Multipliers(sys.p) : RowScaleInvariant(sys.A, sys.b, sys.C, d)
+ConKExp       == IsCon => Len(sys.kexp) = sys.p /\ \A i \in 1..sys.p : \E j \in 1..7 : sys.kexp[i] = KExps[j]
 
 (* ------------------------------ export ------------------------------------------ *)
 EmitRec == (Emit /\ ph = 1 /\ (IsTik \/ WellPosedCon)) => PrintT(ToJson(sys))
